@@ -224,7 +224,10 @@ Definition chk_enc_r (c : obj * res bytes) : bool * bool :=
             then match obs with Ok _ => false | Raise _ => true end   (* no PDU exists for these field values:
                                                                          emitting bytes is non-conformant (C01_encode_rejects_all) *)
             else true
-   | None => true
+   | None =>
+       (* no single spec message stands for this object (e.g. a device-identification response that must be
+          paged): whatever is emitted is still a PDU, and a PDU has at most 253 bytes (v1.1b3 section 4.1) *)
+       match obs with Ok b => Nat.leb (length b) 253 | Raise _ => true end
    end).
 
 (* ---- attributes that [abs] does not look at but that decode() takes from the wire ----------------
